@@ -80,45 +80,93 @@ theorem read_ok_aux (s : CurState) (op : POp) (s' : CurState) (hop : op.isRead =
       · simp at hv
   case magic =>
     obtain ⟨c, t, pat, hd, hp, h⟩ := popBitstr_ok h
-    obtain ⟨bs, hb, h⟩ := lift_ok h
-    obtain ⟨hfit, rfl⟩ := peek_ok hb
-    split at h
-    · simp at h
-    · rename_i heq
-      simp at heq
-      obtain ⟨_, _, h⟩ := moveThen_ok h
-      simp [pushC] at h
+    obtain ⟨hfit, v, hv, rfl⟩ := readWith_ok h
+    have hfit' : s.pos + pat.length ≤ s.input.length := hfit
+    simp only [slice_ds] at hv
+    by_cases heq : slice s pat.length = pat
+    · simp only [heq, ne_eq, not_true_eq_false, if_false, Outcome.ok.injEq] at hv
+      subst hv
       refine ⟨pat.length, .bitstr pat, hfit, ⟨c, pat, by simp [hd], hp, rfl, heq, rfl⟩, ?_⟩
-      rw [← h]; simp [hd, POp.arity, heq]; omega
+      simp [hd, POp.arity]
+    · simp [heq] at hv
   case nulbytestr =>
-    simp only [nulRead] at h
+    rw [nulRead_eq] at h
     obtain ⟨r, hr, h⟩ := lift_ok h
+    have hfit := rest_fit hr
     simp only [rest] at hr
     split at hr
     · simp at hr; subst hr
-      simp only [List.length_drop] at h
+      simp only [List.length_drop] at h hfit
       split at h
       · simp at h
       · rename_i hm
-        obtain ⟨_, hle, h⟩ := moveThen_ok h
-        simp [pushC] at h hm
-        refine ⟨scanNul (s.input.length - s.pos) (s.input.drop s.pos), _, by omega, ⟨hm, rfl, rfl⟩, ?_⟩
-        rw [← h]; simp [POp.arity, slice]; omega
+        split at h
+        · simp at h
+        · simp at h hm
+          refine ⟨scanNul (s.input.length - s.pos) (s.input.drop s.pos), _, hfit, ⟨hm, rfl, rfl⟩, ?_⟩
+          rw [← h]; simp [POp.arity, slice]
     · simp at hr
   case cstr =>
-    simp only [nulRead] at h
+    rw [nulRead_eq] at h
     obtain ⟨r, hr, h⟩ := lift_ok h
+    have hfit := rest_fit hr
     simp only [rest] at hr
     split at hr
     · simp at hr; subst hr
-      simp only [List.length_drop] at h
+      simp only [List.length_drop] at h hfit
       split at h
       · simp at h
       · rename_i hm
-        obtain ⟨_, hle, h⟩ := moveThen_ok h
-        simp [pushC] at h hm
-        refine ⟨scanNul (s.input.length - s.pos) (s.input.drop s.pos), _, by omega, ⟨hm, rfl, rfl⟩, ?_⟩
-        rw [← h]; simp [POp.arity, slice]; omega
+        split at h
+        · simp at h
+        · simp at h hm
+          refine ⟨scanNul (s.input.length - s.pos) (s.input.drop s.pos), _, hfit, ⟨hm, rfl, rfl⟩, ?_⟩
+          rw [← h]; simp [POp.arity, slice]
     · simp at hr
+
+/-- a read word that succeeded found room for its result: after it had taken its arguments the stack was below
+    the limit (so with the stack at the limit — counted without the word's own arguments — no read succeeds) -/
+theorem read_room_aux (s : CurState) (op : POp) (s' : CurState) (hop : op.isRead = true)
+    (h : step s op = (s', .ok ())) : full { s with ds := s.ds.drop op.arity } = false := by
+  cases op <;> simp [POp.isRead] at hop <;> simp only [step] at h
+  case bits =>
+    obtain ⟨c, t, n, hd, hn, h⟩ := popUsize_ok h
+    simpa [hd, POp.arity] using readWith_ok_room h
+  case bytes =>
+    obtain ⟨c, t, m, hd, hn, h⟩ := popUsize_ok h
+    split at h
+    · simp at h
+    · simpa [hd, POp.arity] using readWith_ok_room h
+  case readU k bo => simpa [POp.arity] using readWith_ok_room h
+  case readI k bo => simpa [POp.arity] using readWith_ok_room h
+  case readF k bo => simpa [POp.arity] using readWith_ok_room h
+  case uint =>
+    obtain ⟨c, t, n, hd, hn, h⟩ := popUsize_ok h
+    simpa [hd, POp.arity] using readWith_ok_room h
+  case int =>
+    obtain ⟨c, t, n, hd, hn, h⟩ := popUsize_ok h
+    simpa [hd, POp.arity] using readWith_ok_room h
+  case float =>
+    obtain ⟨c, t, n, hd, hn, h⟩ := popUsize_ok h
+    simpa [hd, POp.arity] using readWith_ok_room h
+  case magic =>
+    obtain ⟨c, t, pat, hd, hp, h⟩ := popBitstr_ok h
+    simpa [hd, POp.arity] using readWith_ok_room h
+  case nulbytestr =>
+    rw [nulRead_eq] at h
+    obtain ⟨r, hr, h⟩ := lift_ok h
+    split at h
+    · simp at h
+    · split at h
+      · simp at h
+      · rename_i hf; simpa [POp.arity] using hf
+  case cstr =>
+    rw [nulRead_eq] at h
+    obtain ⟨r, hr, h⟩ := lift_ok h
+    split at h
+    · simp at h
+    · split at h
+      · simp at h
+      · rename_i hf; simpa [POp.arity] using hf
 
 end Xeh.Cur
